@@ -3,7 +3,7 @@ import numpy as np
 import common
 from common import cN, cZ, cnat, cbool, clist, copt, cpair
 
-PROOF_FILES = ['Proofs/Seq.v']
+PROOF_FILES = ['Proofs/Seq.v', 'Proofs/SeqBi.v']
 ASSUMPTIONS = [
     'the RNN wrapper logic is exercised exactly with an integer cell (carry\' = a*carry + b*x, y = carry\' + c*x) in both APIs; the real cells are compared with their documented '
     'recurrences (numpy) and with the manual loop of cell.apply within 1e-9',
